@@ -5,6 +5,11 @@ ROOT = os.path.dirname(os.path.dirname(os.path.abspath(__file__)))
 
 TECH = "deterministic simulation with fault injection: "
 CHECKS = {
+ "C04": dict(
+   text="Whole-machine simulation at two levels: single bus operations on the real ZXController and stratified instructions single-stepped through the public API, each from a seeded start T (uniform and biased to the edges of the contention window / frame) with code, operands, stack, I register and port address placed in contended or uncontended memory under seeded 128K paging; observed durations are compared with RefULA applied to RefZ80's cycle script. Sampling, not proof.",
+   note="Truth is RefULA (constants of the property text) + RefZ80 cycle scripts; the reference is re-synchronised from the machine's own registers and memory before every instruction (attribution: value bugs are C01's); even ports matching the paging decode are don't-care.",
+   technique=TECH+"seeded start-time / placement / paging schedules on the real machine, durations checked against a reference contention model",
+   ref="5 (C04)"),
  "C17": dict(
    text="Seeded event histories over all host input sources (keys, compound keys, both Sinclair joysticks, Kempston joystick, mouse buttons/wheel/motion) with heavy overlap on shared matrix positions, double presses and releases of unheld controls; after every event the ports are read back by IN A,(C) executed by the emulated CPU and compared with the RefInputs set model. Sampling, not proof.",
    note="Only bits 0-4 of ULA reads are compared (EAR belongs to C07/C11); mouse counters compared as deltas; the Sinclair joystick 2 'down' mapping is a recorded known finding and excluded in a quarter of the runs (avoid-known mode).",
